@@ -15,6 +15,9 @@ type Ctx struct {
 	Tier     string
 	VerifDir string
 	controls *core.Program
+	// locksetErrOnly: shared variables (by source name) that the lockset rule accepts
+	// when every write is under a `!= nil` error test; value = reason
+	locksetErrOnly map[string]string
 }
 
 func (c *Ctx) Thorough() bool { return c.Tier == "thorough" }
